@@ -206,6 +206,16 @@ func init() {
 		TimeoutQuick: 1200,
 		Custom:       customC13,
 	})
+	addSpec(&Spec{ID: "C18", Title: "files outside the supported subset are refused, not misread", Level: "exploration",
+		Shapes: portfolioMain,
+		Rule: "carrier files written by the reference writer (3 row groups, up to 3 pages per chunk, each of the 3 supported codecs); one column chunk is rewritten to use one unsupported feature, really encoded: " +
+			"dictionary page + RLE_DICTIONARY / PLAIN_DICTIONARY data page, dictionary page followed by plain pages, index page, data page v2, DELTA_BINARY_PACKED, DELTA_LENGTH_BYTE_ARRAY, DELTA_BYTE_ARRAY, BYTE_STREAM_SPLIT, RLE booleans, " +
+			"BIT_PACKED definition / repetition levels, codecs LZO (opaque body), BROTLI, LZ4, ZSTD, LZ4_RAW; every column x feature (quick: 2 (row group, page position) placements; thorough: all 9 x 3 codecs); " +
+			"oracle = constructor or Error() reports an error, no panic; distinct = case id; non-trivial = feature placed in a later row group or a later page",
+		Require: []string{"feature_dictionary_rle", "feature_dictionary_plain", "feature_dictionary_page_then_plain", "feature_index_page", "feature_data_page_v2", "feature_delta_binary_packed",
+			"feature_delta_length_byte_array", "feature_delta_byte_array", "feature_byte_stream_split", "feature_rle_boolean", "feature_bit_packed_def_levels", "feature_bit_packed_rep_levels",
+			"feature_codec_lzo", "feature_codec_brotli", "feature_codec_lz4", "feature_codec_zstd", "feature_codec_lz4_raw", "feature_in_later_row_group", "feature_in_later_page"},
+	})
 }
 
 func runCheck(prop, tier string, seed int64, only string) int {
